@@ -501,7 +501,6 @@ class RTCDtlsTransport(AsyncIOEventEmitter):
         :param remoteParameters: An :class:`RTCDtlsParameters`.
         """
         assert self._state == State.NEW
-        assert len(remoteParameters.fingerprints)
 
         # For WebRTC, the DTLS role is explicitly determined as part of the
         # offer / answer exchange.
